@@ -24,6 +24,9 @@ CONSTANTS
   GrpcKinds <- MCGrpcKinds
   LateStartKinds <- %(late)s
   LateListenerLeaks = %(leak)s
+  DynamicKinds <- %(dyn)s
+  MaxSignals = %(sig)d
+  SecondSignalKills = %(kill)s
   MaxServers = %(ms)d
   MaxItems = %(mi)d
   MaxStart = %(st)d
@@ -40,7 +43,7 @@ WAIT_TICKS = 4
 
 
 def cfg(**k):
-    d = dict(spec="Spec", ms=2, mi=2, st=1, gid="FALSE", ko="MCKindOrder", do="MCDurOrder", late="MCNoKinds", leak="FALSE")
+    d = dict(spec="Spec", ms=2, mi=2, st=1, gid="FALSE", ko="MCKindOrder", do="MCDurOrder", late="MCNoKinds", leak="FALSE", dyn="MCNoKinds", sig=0, kill="FALSE")
     d.update(k)
     return CFG % d
 
